@@ -18,7 +18,10 @@
      clause cache are parameters ([extops]); their own properties (C08, C09, C12, C10) cover them.
    * f64: only the GRAMMAR of [str::parse::<f64>] is modelled ([is_f64]); fitness values are kept
      as their token text.
-   * Memory/time (finding K6: ranges are expanded before the boundary check) is not modelled. *)
+   * Memory/time is not modelled.  Finding K6 (ranges are expanded before the boundary check) is
+     repaired by F18 (/repo 2026f7b): a limited range leaving the boundary contributes its two end
+     points only.  [parse_range] below still expands; Proofs/C13F18.v defines the repaired parser
+     and proves it returns the same result everywhere (C13_f18_same_result). *)
 From Coq Require Import List ZArith Bool String Ascii DecimalString DecimalZ.
 From DD Require Import Model.Circuit Model.Query Model.Enumerate.
 Import ListNotations.
@@ -689,7 +692,7 @@ Definition enumerate_chk (ver : version) (dbg : bool) (d : ddnnf) (A : cfg) (amo
     match preprocess d A s with
     | None => EOk (enumerate d A amount c s)
     | Some s1 =>
-      let A' := sort_abs A in
+      let A' := enum_key A in
       let '(s2, r) := execute_query d A' s1 in
       if 0 <? r then
         let rtv := rt d s2 in
